@@ -112,6 +112,12 @@ fn conv_seqs(maxlen: usize) -> Vec<Vec<Conv>> {
     out
 }
 
+fn hash1<T: Hash>(t: &T) -> u64 {
+    let mut h = std::collections::hash_map::DefaultHasher::new();
+    t.hash(&mut h);
+    h.finish()
+}
+
 fn hash_of(t: &OwnedTerm) -> u64 {
     let mut h = std::collections::hash_map::DefaultHasher::new();
     t.hash(&mut h);
@@ -133,6 +139,40 @@ pub fn run(rep: &Report) -> serde_json::Value {
                 if a != b || hash_of(a) != hash_of(b) || a.cmp(b) != std::cmp::Ordering::Equal {
                     rep.violation("same identifier in two wire forms is not equal / hashes differently / does not compare Equal",
                         json!({"id": v.short(), "a": format!("{:?}", a), "b": format!("{:?}", b)}));
+                }
+            }
+        }
+        // the identifier types themselves (users key BTreeMap/HashMap by them; fun ordering goes through them)
+        for a in &decoded {
+            for b in &decoded {
+                let bad = match (a, b) {
+                    (OwnedTerm::Pid(x), OwnedTerm::Pid(y)) => x != y || x.cmp(y) != std::cmp::Ordering::Equal || x.partial_cmp(y) != Some(std::cmp::Ordering::Equal) || hash1(x) != hash1(y),
+                    (OwnedTerm::Port(x), OwnedTerm::Port(y)) => x != y || x.cmp(y) != std::cmp::Ordering::Equal || x.partial_cmp(y) != Some(std::cmp::Ordering::Equal) || hash1(x) != hash1(y),
+                    (OwnedTerm::Reference(x), OwnedTerm::Reference(y)) => x != y || x.cmp(y) != std::cmp::Ordering::Equal || x.partial_cmp(y) != Some(std::cmp::Ordering::Equal) || hash1(x) != hash1(y),
+                    _ => false,
+                };
+                rep.add("evaluations", 1);
+                if bad {
+                    rep.violation("identifier type compares / hashes by more than its logical fields",
+                        json!({"id": v.short(), "a": format!("{:?}", a), "b": format!("{:?}", b)}));
+                }
+            }
+        }
+        // the same identifier in two forms inside the same context: the containing terms are the same term
+        {
+            let per_form: Vec<Vec<(String, Vec<u8>)>> = fs.iter().map(|(_, fb, _)| contexts(fb, matches!(v, RefVal::Pid { .. }))).collect();
+            let nctx = per_form.iter().map(|c| c.len()).min().unwrap_or(0);
+            for ci in 0..nctx {
+                let terms: Vec<OwnedTerm> = per_form.iter().filter_map(|c| { let mut x = vec![131]; x.extend_from_slice(&c[ci].1); erltf::decode(&x).ok() }).collect();
+                for a in &terms {
+                    for b in &terms {
+                        rep.add("evaluations", 1);
+                        let (ba, bb) = (erltf::borrowed::BorrowedTerm::from(a), erltf::borrowed::BorrowedTerm::from(b));
+                        if a != b || hash_of(a) != hash_of(b) || a.cmp(b) != std::cmp::Ordering::Equal || ba != bb || ba.cmp(&bb) != std::cmp::Ordering::Equal {
+                            rep.violation("terms that differ only in the wire form of an identifier are not equal / hash differently / do not compare Equal",
+                                json!({"id": v.short(), "context": per_form[0][ci].0, "a": format!("{:?}", a), "b": format!("{:?}", b)}));
+                        }
+                    }
                 }
             }
         }
